@@ -12,6 +12,20 @@ def run(ctx):
     scn = rxcommon.tlc_behaviours(ctx, 4000 if thorough else 800)
     s0 = rxcommon.drive(ctx, "u2", ["-scn", scn], "TLC-generated 2-round behaviours, concretised", env=env)
     s1 = rxcommon.drive(ctx, "rounds", ["-rounds", 3000 if thorough else 300], "multi-round sequences, NextPackage consumer", env=env)
+    # the consumer side as a design model: every delivered shape x every callback script (TLC), then replayed
+    ctx.tlc_mc("", "Until", "MC_Until_thorough.cfg" if thorough else "MC_Until.cfg", workers=8)
+    import json, os
+    g = ctx.tlc_generate("", "Until", "Gen_Until_thorough.cfg" if thorough else "Gen_Until.cfg", workers=1)
+    seen, scns = set(), []
+    for x in g["scenarios"]:
+        k = json.dumps(x, sort_keys=True)
+        if k not in seen:
+            seen.add(k)
+            scns.append(x)
+    f = os.path.join(ctx.scratch, "until-scn.json")
+    json.dump(scns, open(f, "w"))
+    s3 = rxcommon.drive(ctx, "untilscn", ["-untilscn", f], "every consumer behaviour of Until.tla (delivered shapes <= %d packages x callback scripts x nil callback), replayed" % (3 if thorough else 2), env=env)
+    ctx.extra["until_model_behaviours"] = len(scns)
     s2 = rxcommon.drive(ctx, "until", ["-until", 4000 if thorough else 400],
                         "multi-round sequences, NextPackageUntil with scripted callback outcomes (cont/stop/io.EOF/error/nil callback)", env=env)
     ctx.extra.update({"u2_runs": s0["runs"], "round_runs": s1["runs"], "until_runs": s2["runs"]})
